@@ -721,6 +721,10 @@ func evalFunctionCall(node *CallExpression, env *Environment) Object {
 		return args[0]
 	}
 
+	if len(args) != funcObj.Arity {
+		return newError("incorrect number of operands for function %s: %d", funcObj.Name, len(args))
+	}
+
 	return fn.(*Function).Value(args...)
 }
 
@@ -742,6 +746,10 @@ func evalUpdateFunctionCall(node *CallExpression, env *Environment) Object {
 	args := evalUpdateExpressions(node.Arguments, env)
 	if len(args) == 1 && isError(args[0]) {
 		return args[0]
+	}
+
+	if len(args) != funcObj.Arity {
+		return newError("incorrect number of operands for function %s: %d", funcObj.Name, len(args))
 	}
 
 	return fn.(*Function).Value(args...)
